@@ -365,7 +365,20 @@ class State:
         self.exc = None                   # currently handled exception (for bare raise)
 
     def copy(self):
-        s = State(self.env, self.heap.copy(), self.pc, self.defs)
+        env = self.env
+        if any(isinstance(v, PyList) or type(v).__name__ == "PyDict" for v in env.values()):
+            # local mutable containers must not be shared between sibling paths
+            memo, env = {}, dict(env)
+            for k, v in list(env.items()):
+                if isinstance(v, PyList):
+                    if id(v) not in memo:
+                        memo[id(v)] = PyList(list(v.items), v.kind)
+                    env[k] = memo[id(v)]
+                elif type(v).__name__ == "PyDict":
+                    if id(v) not in memo:
+                        memo[id(v)] = type(v)(dict(v.d))
+                    env[k] = memo[id(v)]
+        s = State(env, self.heap.copy(), self.pc, self.defs)
         s.pcn = list(self.pcn)
         s.tags = list(self.tags)
         s.exc = self.exc
